@@ -22,7 +22,7 @@ SPEC = {
     "design_ref": "DESIGN.md section 7, C03",
     "suites": [
         Suite(name="conc", harness="vh_conc", runner="conc",
-              model_deps=["theories/Model/CounterConc.vo"],
+              model_deps=["theories/Model/CounterConc.vo", "theories/Model/CounterMulti.vo"],
               quick_n=400, thorough_n=12000, rewrite=rewrite_counter_imports, tags="verif,verifconc", coq_replay=coqreplay.conc,
               rule="each case is one scenario: 2-4 goroutines calling the real Counter.Add on one counter, plus "
                    "0-2 mapping changers (first open / rotation via the real rotate1, growth via the real "
